@@ -485,3 +485,189 @@ class ReadLine(Contract):
 
 for _f in (5, 1, 2):
     fuc(RL_KEY, props=['C01', 'C04', 'C07x'], modular=(_f == 5))(type(f'ReadLine_f{_f}', (ReadLine,), dict(fmt=_f, variant=f'format={_f}')))
+
+
+# ---------------------------------------------------------------------------------------------
+# 2-D lines (C09): trace groups of blockshape[1] traces
+
+IO2_KEY = 'conversion_utils.py::io_thread_func_2d'
+IO_B1 = (4, 8, 16, 32) if THOROUGH else (4, 8, 16)
+
+
+def src2(t, z):
+    return MX.src(0, t, z)
+
+
+class IoThreadFunc2d(ProducerContract):
+    """buffer[i, z] = sample min(z, nZ-1) of source trace min(g*b1+i, nT-1); header array f: entry t = header f of source trace t
+    for the real traces of the group, other entries untouched"""
+    b1 = 4
+    FIELDS = (1, 73)
+    loops = {}
+
+    def inputs(self, c):
+        b1 = self.b1
+        nT = c.sym_int('nT', lo=2, name='n_traces'); nZ = c.sym_int('nZ', lo=2, name='n_samples')
+        seg = MX.mk_segy(c, 1, nT, nZ, two_d=True, nT=nT)
+        b2 = c.sym_int('b2', lo=4, name='blockshape[2]')
+        P2 = c.sym_int('P2', name='padded_z')
+        c.assume(ge(P2, nZ))
+        g = c.sym_int('g', lo=0, name='trace_group_id')
+        ttr = c.sym_int('ttr', lo=1, hi=b1, name='traces_to_read')
+        c.assume(eq(ttr, Min(b1, sub(nT, mul(b1, g)))))
+        buf = SArray((b1, P2), lambda idx: STok(z3.Const('F32_ZERO', F32)), 'float32')
+        hd = {}
+        for f in self.FIELDS:
+            gf = z3.Function(f'old_hdr{f}', z3.IntSort(), z3.IntSort())
+            hd[f] = SArray((nT,), (lambda gg: (lambda idx: mk_int(gg(zint(idx[0])))))(gf), 'int32')
+        return dict(blockshape=(1, b1, b2), store_headers=True, headers_dict=hd, trace_group_id=g, traces_to_read=ttr,
+                    seismic_buffer=buf, seismicfile=seg, trace_length=nZ, _n=(nT, nZ), _P2=P2, _old={f: hd[f].fn for f in self.FIELDS})
+
+    def post(self, c, a, result):
+        nT, nZ = a['_n']
+        b1 = self.b1
+        g = a['trace_group_id']
+        buf = a['seismic_buffer']
+        e = O.skolem_index(c, (b1, a['_P2']), base='be')
+        want = src2(Min(add(mul(b1, g), e[0]), sub(nT, 1)), Min(e[1], sub(nZ, 1)))
+        c.ensure(buf.fn(e) == want, 'buffer_is_the_edge_replicated_trace_group')
+        ttr = a['traces_to_read']
+        for f in self.FIELDS:
+            arr = a['headers_dict'][f]
+            for i in range(b1):
+                t = add(mul(b1, g), i)
+                c.ensure(Implies(lt(i, ttr), eq(arr.fn((t,)), MX.hsrc(t, f))), f'header{f}.row{i}.entry_is_the_source_header_of_that_trace')
+            j = c.sym_int(f'hj{f}', lo=0, name='header_array_index')
+            c.assume(lt(j, nT), Or(lt(j, mul(b1, g)), ge(j, add(mul(b1, g), ttr))))
+            c.ensure(eq(arr.fn((j,)), a['_old'][f]((j,))), f'header{f}.entries_of_other_traces_untouched')
+
+
+for _b1 in IO_B1:
+    fuc(IO2_KEY, props=['C09', 'C04'])(type(f'IoThreadFunc2d_b{_b1}', (IoThreadFunc2d,), dict(b1=_b1, variant=f'b1={_b1}')))
+
+
+class IoThreadFunc2dModular(IoThreadFunc2d):
+    variant = 'call-site view'
+    exact_result = True
+    verify = IoThreadFuncModular.verify
+
+    def post(self, c, a, result):
+        pass
+
+    def pre(self, c, a):
+        b1 = a['blockshape'][1]
+        seg = a['seismicfile']
+        nT = seg.fields['nT']
+        buf = a['seismic_buffer']
+        return [mk_bool(isinstance(b1, int) and b1 in IO_B1),
+                eq(a['traces_to_read'], Min(b1, sub(nT, mul(b1, a['trace_group_id'])))), ge(a['traces_to_read'], 1),
+                mk_bool(isinstance(buf, SArray) and len(buf.shape) == 2) and eq(buf.shape[0], b1),
+                mk_bool(getattr(buf, 'fresh_zeros', False))]
+
+    def fresh_result(self, c, a):
+        return None
+
+    def effects(self, c, a, result):
+        seg = a['seismicfile']
+        nT = seg.fields['nT']
+        nZ = a['trace_length']
+        b1 = a['blockshape'][1]
+        g = a['trace_group_id']
+        buf = a['seismic_buffer']
+        buf.fn = lambda idx: src2(Min(add(mul(b1, g), idx[0]), sub(nT, 1)), Min(idx[1], sub(nZ, 1)))
+        buf.fresh_zeros = False
+        c.ghost.setdefault('header_rows', []).append(dict(g=g))
+
+
+fuc(IO2_KEY, props=[], modular=True)(IoThreadFunc2dModular)
+
+
+class SeismicFileProducer2d(ProducerContract):
+    """2-D producer: puts = edge-replicated trace groups / blocks at the specified offsets (spec_off2); hash = the real traces only"""
+    loops = {1: L.EventLoop(), 2: L.EventLoop()}
+
+    def inputs(self, c):
+        prog = c.ex.prog
+        rate, b = self.cfg
+        nT = c.sym_int('nT', lo=2, name='n_traces'); nZ = c.sym_int('nZ', lo=2, name='n_samples')
+        seg = MX.mk_segy(c, 1, nT, nZ, two_d=True, nT=nT)
+        geom = SObj(prog.klass('Geometry2d'), dict(traces=SymSeq(nT, lambda k: k)))
+        n = (nT, nZ)
+        G = [1]
+        for k in (1, 2):
+            Gk = c.sym_int(f'G{k}', lo=1, name=f'blocks_axis{k}')
+            c.assume(le(n[k - 1], mul(b[k], Gk)), lt(sub(mul(b[k], Gk), b[k]), n[k - 1]))
+            G.append(Gk)
+        P = [1, mul(b[1], G[1]), mul(b[2], G[2])]
+        a_ = [1, b[1] // 4, b[2] // 4]
+        ub = S.unit_bytes(rate, 2)
+        q = SObj(None, clsname='$queue')
+        q.fields['on_put'] = self.put_hook_2d(n, G, P, a_, ub)
+        h = SObj(None, clsname='$hash')
+        h.fields.update(log=[], alg='sha1', on_update=self.hash_hook_2d(n, b[1]))
+        return dict(queue=q, seismicfile=seg, blockshape=tuple(b), store_headers=True, headers_dict={}, geom=geom, hash_object=h, verbose=False)
+
+    def put_hook_2d(self, n, G, P, a, ub):
+        rate, b = self.cfg
+        whole = (b[1] == 4)
+
+        def on_put(c, ev):
+            arr = ev['item']
+            lv = ev['loopvars']
+            c.require(mk_bool(isinstance(arr, SArray) and len(arr.shape) == 2), 'put.is_2d_array', kind='event')
+            if not (isinstance(arr, SArray) and len(arr.shape) == 2):
+                return
+            ks = [SInt(z) for z, _ in lv]
+            if whole:
+                c.require(mk_bool(len(lv) == 1), 'put.one_per_trace_group', kind='event')
+                if len(lv) != 1:
+                    return
+                g = ks[0]
+                shp = (4, P[2])
+                base = (mul(4, g), 0)
+                c.require(eq(lv[0][1], G[1]), 'put.one_event_per_trace_group_of_the_padded_section', kind='event')
+            else:
+                c.require(mk_bool(len(lv) == 2), 'put.one_per_block', kind='event')
+                if len(lv) != 2:
+                    return
+                g, z = ks
+                shp = (b[1], b[2])
+                base = (mul(b[1], g), mul(b[2], z))
+                c.require(And(eq(lv[0][1], G[1]), eq(lv[1][1], G[2])), 'put.one_event_per_block_of_the_padded_section', kind='event')
+            c.require(And(*[eq(p, q) for p, q in zip(arr.shape, shp)]), 'put.shape', kind='event')
+            e = O.skolem_index(c, shp, base='pe')
+            want = src2(Min(add(base[0], e[0]), sub(n[0], 1)), Min(add(base[1], e[1]), sub(n[1], 1)))
+            c.require(arr.fn(e) == want, 'put.content_is_edge_replicated_source', kind='event')
+            cell = [fdiv(e[k], 4) for k in range(2)]
+            cells_per = [fdiv(shp[k], 4) for k in range(2)]
+            in_event = mul(ub, add(mul(cell[0], cells_per[1]), cell[1]))
+            if whole:
+                ev_bytes = mul(mul(4, P[2]), Fraction(rate).numerator)
+                start = fdiv(mul(g, ev_bytes), 8 * Fraction(rate).denominator)
+            else:
+                start = mul(BLK, add(mul(g, G[2]), z))
+            xu, zu = [add(fdiv(base[k], 4), cell[k]) for k in range(2)]
+            c.require(eq(add(start, in_event), S.spec_off2(xu, zu, G, a, ub)), 'put.layout_agreement_with_the_file_specification', kind='event')
+        return on_put
+
+    def hash_hook_2d(self, n, b1):
+        def on_update(c, ev):
+            d = ev['data']
+            lv = ev['loopvars']
+            c.require(mk_bool(isinstance(d, SArray) and len(d.shape) == 2 and len(lv) == 1), 'hash.one_event_per_trace_group', kind='event')
+            if not (isinstance(d, SArray) and len(d.shape) == 2 and len(lv) == 1):
+                return
+            g = SInt(lv[0][0])
+            rows = Min(b1, sub(n[0], mul(b1, g)))
+            c.require(And(eq(d.shape[0], rows), eq(d.shape[1], n[1])), 'hash.real_traces_and_samples_only', kind='event')
+            e = O.skolem_index(c, (rows, n[1]), base='he')
+            c.require(d.fn(e) == src2(add(mul(b1, g), e[0]), e[1]), 'hash.content_is_the_source_samples_in_trace_order', kind='event')
+        return on_update
+
+    def post(self, c, a, result):
+        c.ensure(mk_bool(len(c.ghost.get('puts', [])) >= 1), 'puts_happened')
+        c.ensure(mk_bool(len(a['hash_object'].fields['log']) >= 1), 'hash_updates_happened')
+        c.ensure(mk_bool(len(c.ghost.get('header_rows', [])) >= 1), 'trace_groups_filled_through_io_thread_func_2d')
+
+
+register(SeismicFileProducer2d, 'conversion_utils.py::seismic_file_producer_2d', ['C09', 'C20'], [cf for cf in ALL2 if cf[1][1] in IO_B1], modes=('file',))
